@@ -385,7 +385,7 @@ def _gen_iterate(rng, tier):
         ps, og = _geom(rng)
         c = {"mask": m, "pixel_scales": ps, "origin": og, "spec": _spec(rng, i % N_KINDS),
              "steps": schedules[(i // 2) % len(schedules)], "frac": fracs[(i // 3) % len(fracs)],
-             "rel": None if rng.random() < 0.6 else 10.0 ** rng.uniform(-4, 0), "via_decorator": bool(i % 2)}
+             "rel": None if rng.random() < 0.6 else (0.0 if rng.random() < 0.15 else 10.0 ** rng.uniform(-4, 0)), "via_decorator": bool(i % 2)}
         i += 1
         return c
 
@@ -690,7 +690,7 @@ def _gen_reuse_iterate(rng, tier):
             if not geoms or g != geoms[-1]:
                 geoms.append(g)
         c = {"mask": m, "geoms": geoms, "spec": _spec(rng, [0, 7, 4, 1, 2, 3, 5][i % 7]), "steps": schedules[i % len(schedules)],
-             "frac": fracs[(i // 2) % len(fracs)], "rel": None if rng.random() < 0.7 else 10.0 ** rng.uniform(-3, 0),
+             "frac": fracs[(i // 2) % len(fracs)], "rel": None if rng.random() < 0.7 else (0.0 if rng.random() < 0.15 else 10.0 ** rng.uniform(-3, 0)),
              "via_decorator": [bool(rng.getrandbits(1)) for _ in range(k)]}
         i += 1
         return c
@@ -752,7 +752,7 @@ def _gen_reuse_funcs(rng, tier):
         kinds = [k for k in range(N_KINDS) if k != 6]
         c = {"mask": m, "pixel_scales": ps, "origin": og, "specs": [_spec(rng, rng.choice(kinds)) for _ in range(rng.choice([2, 3]))],
              "steps": schedules[i % len(schedules)], "frac": fracs[(i // 2) % len(fracs)],
-             "rel": None if rng.random() < 0.7 else 10.0 ** rng.uniform(-3, 0), "via_decorator": bool(i % 2)}
+             "rel": None if rng.random() < 0.7 else (0.0 if rng.random() < 0.15 else 10.0 ** rng.uniform(-3, 0)), "via_decorator": bool(i % 2)}
         i += 1
         return c
 
